@@ -40,6 +40,9 @@ pub trait VF: Fixed + 'static {
     fn cmp_int(st: usize, a: Self, kind: usize, t: u128, outs: &mut Outs);
     fn cmp_f32(st: usize, a: Self, t: f32, outs: &mut Outs);
     fn cmp_f64(st: usize, a: Self, t: f64, outs: &mut Outs);
+    /// `half::f16` / `half::bf16` given by their bit patterns (optional feature `f16` of the library)
+    fn cmp_f16(st: usize, a: Self, bits: u16, outs: &mut Outs);
+    fn cmp_bf16(st: usize, a: Self, bits: u16, outs: &mut Outs);
     fn lossy_f32(a: Self) -> f32;
     fn lossy_f64(a: Self) -> f64;
     /// Wrapping<F> binary operators; op 0 + 1 - 2 * 3 / 4 % 5 & 6 | 7 ^; form 0 `a op b`, 1 `&a op &b`,
@@ -207,6 +210,14 @@ macro_rules! impl_vf {
                 $crate::cmp14!(st, outs, a, t);
             }
             fn cmp_f64(st: usize, a: Self, t: f64, outs: &mut Outs) {
+                $crate::cmp14!(st, outs, a, t);
+            }
+            fn cmp_f16(st: usize, a: Self, bits: u16, outs: &mut Outs) {
+                let t = half::f16::from_bits(bits);
+                $crate::cmp14!(st, outs, a, t);
+            }
+            fn cmp_bf16(st: usize, a: Self, bits: u16, outs: &mut Outs) {
+                let t = half::bf16::from_bits(bits);
                 $crate::cmp14!(st, outs, a, t);
             }
             fn lossy_f32(a: Self) -> f32 {
